@@ -27,6 +27,7 @@ RULE = ("sequences of all classes incl. length 1-3, one charge class, no neutral
         "parents with delta-max cached or not; distinct = distinct (parent, move, frozen, result); non-trivial = result "
         "differs from the parent")
 RULE += ("; added after the mutation rounds: parents whose raw ratio lies in (1,1.1) with kappa() called before the move; the first cases of every shard are judged again at its end")
+RULE += ("; round 5: frozen containers with entries that are no positions (negative, at or beyond the end) for the shuffles")
 EXHAUSTIVE = {"quick": False, "thorough": False}
 ASSUMPTIONS = [
     "frozen positions are 0-based indices (as the backend moves and the WL freeze-file define them)",
